@@ -30,6 +30,13 @@ CHECKS = {
             "The observer only sees interleavings the scheduler produces. CanX==X asserted only where the statement does (non-Multi, handlers "
             "ignoring the check flag).",
             "property-based testing (rapid): result-vs-trace oracle, metamorphic CanX==X relation, atomicity observer", "DESIGN.md §5 C03"),
+    "C05": ("exploration",
+            "Property-based exploration with complete handler tables (every handler name bound in 1..3 bindings), so the recorded call log shows "
+            "every call the machine makes; per transition the log is checked for phase order, After/Require state order, what each handler "
+            "observed (before-time in negotiation, applied after-time in finals), exactly-once finals per changed state per binding, and "
+            "every negotiation call position of a dry run is re-run with a veto there (enumerated).",
+            "Map-based bindings only (struct bindings share the call path after lookup). Ordering asserted only on acyclic After∪Require graphs.",
+            "property-based testing (rapid) with a handler-call recorder; veto positions enumerated from a dry run", "DESIGN.md §5 C05"),
 }
 
 NOT_YET = "check not built yet in this session (planned, see DESIGN.md §9)"
